@@ -71,12 +71,13 @@ def calleeAgrees (c1 c2 : CallSite) : Prop :=
 
 /-- **Key injectivity.** With injective digests (`H` = `hash(bytes)`, `S` = SHA-1), two call sites
     with equal keys have the same target, the same input shapes and dtypes, identical keyword
-    captures *including the full bytes of every static value*, the same mode, and the same instance
-    (default mode) or the same instance type and full state (`unique=True`). -/
+    captures as the code classifies them (`effCaps`: *including the full bytes of every static
+    value*), the same mode, and the same instance (default mode) or the same instance type and
+    full state (`unique=True`). -/
 theorem key_injective (H S : Bytes → Nat) (hH : ∀ a b, H a = H b → a = b)
     (hS : ∀ a b, S a = S b → a = b) (c1 c2 : CallSite) (h : mkKey H S c1 = mkKey H S c2) :
-    c1.target = c2.target ∧ c1.inSig = c2.inSig ∧ c1.caps = c2.caps ∧ c1.unique = c2.unique ∧
-      calleeAgrees c1 c2 := by
+    c1.target = c2.target ∧ c1.inSig = c2.inSig ∧ effCaps c1 = effCaps c2 ∧
+      c1.unique = c2.unique ∧ calleeAgrees c1 c2 := by
   have hcap := mapSnd_inj (capKey H) (capKey_inj H hH)
   have hfp := mapSnd_inj (fpKey S) (fpKey_inj S hS)
   unfold mkKey at h
@@ -101,6 +102,7 @@ def exH : Bytes → Nat := fun b => b.foldl (fun a x => a * 256 + (x % 256) + 1)
 def exSite (w : Bytes) (kw : Bytes) (dt : String) (u : Bool) (id : Nat) : CallSite :=
   { target := "m.Blk", unique := u, ns := ["custom"], base := "Blk",
     inSig := [⟨["2", "3"], dt⟩], caps := [("k", .const [] "float32" kw)],
+    paramNames := ["deterministic"], injected := [],
     callee := .inst id "m.Blk" [("leaf0", .arr ["3"] "float32" w)], nOut := 1 }
 example : mkKey exH exH (exSite [1,2] [7] "float32" true 1) = mkKey exH exH (exSite [1,2] [7] "float32" true 2) := by
   decide
@@ -113,6 +115,36 @@ example : mkKey exH exH (exSite [1,2] [7] "float32" false 1) ≠ mkKey exH exH (
 example : mkKey exH exH (exSite [1,2] [7] "float32" false 1) ≠ mkKey exH exH (exSite [1,2] [7] "float32" false 2) := by
   decide
 end
+
+/-- **Keyword arguments are in the key** (partial: call sites where no static keyword argument is
+    named like an `input_params` entry and no input param is threaded in automatically):
+    equal keys ⇒ identical keyword arguments, value bytes included. -/
+theorem key_injective_kwargs_partial (H S : Bytes → Nat) (hH : ∀ a b, H a = H b → a = b)
+    (hS : ∀ a b, S a = S b → a = b) (c1 c2 : CallSite) (h1 : NoShadow c1) (h2 : NoShadow c2)
+    (h : mkKey H S c1 = mkKey H S c2) : c1.caps = c2.caps := by
+  have := (key_injective H S hH hS c1 c2 h).2.2.1
+  rwa [effCaps_of_noShadow c1 h1, effCaps_of_noShadow c2 h2] at this
+
+/-- The full-strength statement "equal keys ⇒ equal keyword arguments" is FALSE: a static keyword
+    argument whose *name* is an `input_params` name enters the key as `("call_input", shape, dtype)`
+    without its value, so `blk(x, deterministic=<the input param>)` and
+    `blk(x, deterministic=False)` get one definition.
+    (Replayed on the real code: known finding F-C07-input-param-name-capture.) -/
+theorem kwargs_in_key_refuted :
+    ¬ (∀ (c1 c2 : CallSite), (∀ H S : Bytes → Nat, mkKey H S c1 = mkKey H S c2) →
+        c1.caps = c2.caps) := by
+  intro hall
+  have := hall { exSite [1] [7] "f" false 1 with caps := [("deterministic", .const [] "bool" [1])] }
+    { exSite [1] [7] "f" false 1 with caps := [("deterministic", .const [] "bool" [0])] }
+    (fun H S => rfl)
+  exact absurd this (by decide)
+
+example : NoShadow (exSite [1] [7] "f" false 1) := by
+  refine ⟨rfl, ?_⟩
+  intro p hp hmem
+  simp [exSite] at hp
+  subst hp
+  simp [exSite] at hmem
 
 /-! ### Sharing over all call histories -/
 
@@ -131,38 +163,13 @@ theorem shared_only_if_equal_components (H S : Bytes → Nat) (hH : ∀ a b, H a
     (hS : ∀ a b, S a = S b → a = b) (ops : List Op) (e1 e2 : Entry)
     (h1 : e1 ∈ (run H S ops).log) (h2 : e2 ∈ (run H S ops).log) (h : e1.d.idx = e2.d.idx) :
     e1.site.target = e2.site.target ∧ e1.site.inSig = e2.site.inSig ∧
-      e1.site.caps = e2.site.caps ∧ e1.site.unique = e2.site.unique ∧
+      effCaps e1.site = effCaps e2.site ∧ e1.site.unique = e2.site.unique ∧
       calleeAgrees e1.site e2.site :=
   key_injective H S hH hS _ _ (shared_only_if_equal_key H S ops e1 e2 h1 h2 h)
 
 /-- The same object has the same state at all its call sites of the history. -/
 def StableInstances (ops : List Op) : Prop :=
   ∀ c1 ∈ sitesOf ops, ∀ c2 ∈ sitesOf ops, c1.callee.id = c2.callee.id → c1.callee = c2.callee
-
-theorem foldl_log_sites (H S : Bytes → Nat) : ∀ (ops : List Op) (st : St) (e : Entry),
-    e ∈ (ops.foldl (step H S) st).log → e ∈ st.log ∨ e.site ∈ sitesOf ops
-  | [], st, e, h => Or.inl h
-  | .exit :: r, st, e, h => by
-    have := foldl_log_sites H S r (step H S st .exit) e h
-    rcases this with h' | h'
-    · left
-      simp only [step] at h'
-      split at h' <;> exact h'
-    · right; simpa [sitesOf] using h'
-  | .enter c :: r, st, e, h => by
-    have := foldl_log_sites H S r (step H S st (.enter c)) e h
-    rcases this with h' | h'
-    · simp only [step] at h'
-      split at h'
-      · simp only [List.mem_cons] at h'
-        rcases h' with rfl | h'
-        · right; simp [sitesOf]
-        · left; exact h'
-      · simp only [List.mem_cons] at h'
-        rcases h' with rfl | h'
-        · right; simp [sitesOf]
-        · left; exact h'
-    · right; simp only [sitesOf, List.mem_cons]; exact Or.inr h'
 
 /-- **Shared only if equal state** (partial: histories in which no instance changes state between
     its call sites). Two call sites of class targets that share a definition have callees with
